@@ -472,6 +472,10 @@ def as_poly(v):
     raise OutsideFragment(f"value {type(v).__name__} used as ring element")
 
 
+class InfeasiblePath(Exception):
+    """raised by a path-dependent contract: the decisions of this path contradict a stated mathematical fact (the path is skipped)"""
+
+
 class Undecidable(Exception):
     """the unit cannot be decided (not an OutsideFragment: a trace-only unit must not havoc its way past this)"""
 
@@ -3159,7 +3163,11 @@ def _run_unit(root, unit, contracts, seed=0, perturb=None):
         out1 = unit.outputs(res1, args1, ctx1)
         pcs = it1.path_conds
         if unit.path_dependent:
-            out2 = run_contract(pcs)
+            try:
+                out2 = run_contract(pcs)
+            except InfeasiblePath as ip_:
+                calls.append("INFEASIBLE-PATH-SKIPPED:" + str(ip_)[:120])      # the contract states why this combination of decisions cannot occur
+                continue
         pc_txt = " && ".join(("" if t else "!") + canon(c) for c, t in pcs)
         keys = list(out2.keys()) + [k for k in out1.keys() if k not in out2]
         for k in keys:
@@ -3297,6 +3305,15 @@ def _path_rules(pcs):
                     break
         if done:
             continue
+        # general case  c*m + rest == 0  with m the unique monomial of highest total degree: every multiple of m is rewritten with
+        # m := -rest/c  (exact: it is the equation itself; terminates because rest has lower degree)
+        deg = lambda m_: sum(e_ for _v, e_ in m_)
+        top = max(n, key=deg)
+        if deg(top) >= 1 and all(deg(m2) < deg(top) for m2 in n if m2 != top):
+            inv = pow(n[top] % R_BLS, -1, R_BLS)
+            rest = Poly({m2: c2 for m2, c2 in n.items() if m2 != top}) * C((-inv) % R_BLS)
+            rules.append(("monosub", top, rest))
+            used.add(i)
     return rules, used
 
 
@@ -3306,6 +3323,21 @@ def _apply_rules(v, rules):
         for r in rules:
             if r[0] == "sub":
                 p = p.subst({r[1]: r[2]})
+            elif r[0] == "monosub":
+                mono = dict(r[1])
+                for _round in range(64):
+                    out_, hit = Poly(), False
+                    for m, c in p.norm().items():
+                        dm = dict(m)
+                        if all(dm.get(x, 0) >= e for x, e in mono.items()):
+                            hit = True
+                            q_ = tuple(sorted((v, k - mono.get(v, 0)) for v, k in dm.items() if k - mono.get(v, 0) > 0))
+                            out_ = out_ + Poly({q_: c}) * r[2]
+                        else:
+                            out_ = out_ + Poly({m: c})
+                    p = out_
+                    if not hit:
+                        break
             else:
                 mono = dict(r[1])
                 p = Poly({m: c for m, c in p.norm().items() if not all(dict(m).get(x, 0) >= e for x, e in mono.items())})
